@@ -148,7 +148,17 @@ fn gen_case(seed: u64, index: u64, tier: Tier) -> Case {
 		3 => Hold::StartOnStoppedClock,
 		_ => Hold::None,
 	};
-	Case {
+	let sched = if !systematic && rng.chance(0.35) { Some(*rng.pick(&[0.1, 0.3, 0.7])) } else { None };
+	// known finding (open): pause() and stop() travel in separate mailboxes that the audio thread
+	// reads one after the other; written while it is between the two reads, the earlier pause is
+	// applied one callback after the later stop and cancels it - the sound never stops. While it
+	// is listed, cases under random schedules do not combine a pause with a stop.
+	let hold = if sched.is_some() && matches!(ending, Ending::Stop { .. }) && matches!(hold, Hold::Paused { .. }) && crate::known::is_open("C10-pause-overtakes-stop") {
+		Hold::None
+	} else {
+		hold
+	};
+	let mut case = Case {
 		seed,
 		len,
 		packets,
@@ -164,8 +174,20 @@ fn gen_case(seed: u64, index: u64, tier: Tier) -> Case {
 		seek: if rng.chance(0.3) { Some((rng.usize_below(callbacks), rng.usize_below(len + 2))) } else { None },
 		track_paused: rng.chance(0.15),
 		hold,
-		sched: if !systematic && rng.chance(0.35) { Some(*rng.pick(&[0.1, 0.3, 0.7])) } else { None },
+		sched,
+	};
+	// a third of the scheduled cases race the decoder's error report against the audio thread and a
+	// polling handle: a looping sound nobody stops, one failing decode call
+	if case.sched.is_some() && rng.chance(0.35) {
+		case.ending = Ending::Natural;
+		case.looped = true;
+		case.fail_decode = Some(rng.below(10));
+		case.fail_seek = None;
+		case.hold = Hold::None;
+		case.track_paused = false;
+		case.seek = None;
 	}
+	case
 }
 
 /// Was a stop issued, and not cancelled by a later pause?
@@ -301,6 +323,8 @@ pub fn run_case(case: &Case) -> CaseResult {
 	let mut spin_checked = false;
 	let index_of = |v: f32| -> i64 { (v * 4096.0).round() as i64 - 1 };
 
+	let early_pop: std::sync::Arc<std::sync::Mutex<Option<ScriptErr>>> = Default::default();
+	let early_miss: std::sync::Arc<std::sync::Mutex<bool>> = Default::default();
 	// ---- main phase under seeded random schedules (decoder, audio and gameplay tasks) ----
 	if let (Some(p), true) = (case.sched, created) {
 		use std::sync::{Arc, Mutex};
@@ -311,6 +335,7 @@ pub fn run_case(case: &Case) -> CaseResult {
 		let outputs: Arc<Mutex<Vec<Vec<f32>>>> = Arc::new(Mutex::new(vec![]));
 		{
 			let (sw, case2) = (shared_world.clone(), case.clone());
+			let (early_pop2, early_miss2, probe2) = (early_pop.clone(), early_miss.clone(), probe.clone());
 			sim.spawn_task(
 				"gameplay",
 				Role::Gameplay,
@@ -340,6 +365,20 @@ pub fn run_case(case: &Case) -> CaseResult {
 									world.exec(&Op::Drop { kind: Kind::Track, index: 0 });
 								}
 								_ => {}
+							}
+						}
+						// a looping sound that nobody stops can only be Stopped because of a decode error:
+						// from that moment on the error must be there to be popped
+						if matches!(case2.ending, Ending::Natural) && case2.looped {
+							if let Some(world) = guard.as_mut() {
+								if let Some(SoundH::Streaming(h, _)) = world.sounds[sound_idx].handle.as_mut() {
+									if h.state() == PlaybackState::Stopped && probe2.errors.load(Ordering::SeqCst) > 0 && early_pop2.lock().unwrap().is_none() {
+										match h.pop_error() {
+											Some(e) => *early_pop2.lock().unwrap() = Some(e),
+											None => *early_miss2.lock().unwrap() = true,
+										}
+									}
+								}
 							}
 						}
 						kira::verif::yield_point("gameplay.tick");
@@ -621,8 +660,16 @@ pub fn run_case(case: &Case) -> CaseResult {
 		if probe.errors.load(Ordering::SeqCst) > 0 {
 			res.hit("runs_with_decoder_error");
 			let first = probe.first_error.lock().unwrap().clone();
-			let popped = match world.sounds[sound_idx].handle.as_mut() {
-				Some(SoundH::Streaming(h, _)) => h.pop_error(),
+			if *early_miss.lock().unwrap() {
+				res.fail(Violation::new(
+					"errors",
+					"stopped-by-error-but-no-error-to-pop",
+					"the handle reported Stopped (a looping sound nobody stopped: only a decode error can do that) while pop_error() returned None".to_string(),
+				));
+			}
+			let popped = match (early_pop.lock().unwrap().take(), world.sounds[sound_idx].handle.as_mut()) {
+				(Some(e), _) => Some(e),
+				(None, Some(SoundH::Streaming(h, _))) => h.pop_error(),
 				_ => None,
 			};
 			if popped != first {
@@ -712,7 +759,7 @@ impl Check for C10 {
 		CheckInfo {
 			id: "C10",
 			level: "fault_enumeration",
-			rule: "half of the cases enumerate, for a 12-packet stream, (fault: the k-th decode call fails for k = 0..13, the k-th seek call fails for k = 0..3 incl. the one inside into_sound, or no fault) x (ending: natural end, stop, rejected by a full track, track dropped, manager dropped) x (decoder pace: ahead, in time, starving, stalled) with seeded timing; the other half draws stream length, packet sizes, seek granularity, looping, fault position, ending, pace, seek command and a paused track from the seed; in every case the sound may additionally be held (paused before a seeded callback, start time far in the future, start time on a clock that is never started) so that faults strike a sound that is not advancing; non-trivial = every case (a decoder thread is created or into_sound fails); distinct = hash of (per-callback reported state, frames heard, errors fired)",
+			rule: "half of the cases enumerate, for a 12-packet stream, (fault: the k-th decode call fails for k = 0..13, the k-th seek call fails for k = 0..3 incl. the one inside into_sound, or no fault) x (ending: natural end, stop, rejected by a full track, track dropped, manager dropped) x (decoder pace: ahead, in time, starving, stalled) with seeded timing; the other half draws stream length, packet sizes, seek granularity, looping, fault position, ending, pace, seek command and a paused track from the seed; in every case the sound may additionally be held (paused before a seeded callback, start time far in the future, start time on a clock that is never started) so that faults strike a sound that is not advancing; a third of the scheduled cases are a looping sound nobody stops with one failing decode call, while the gameplay task polls state() / pop_error(); non-trivial = every case (a decoder thread is created or into_sound fails); distinct = hash of (per-callback reported state, frames heard, errors fired)",
 			assumptions: vec![
 				"liveness is judged after faults have stopped, under a fair schedule: rounds of (one callback + 64 decoder loop iterations), at most (stream length + ring capacity + 64) / 64 + 8 rounds".into(),
 				"busy spin = a budget of >= 20 loop iterations used up with >= 2 errors raised, no frame delivered, no sleep and no exit".into(),
